@@ -118,7 +118,7 @@ def continuation(d, clsname, r, cont):
     if clsname.startswith('Locked'):
         t = threading.Thread(target=go, args=(r,), daemon=True)
         t.start()
-        t.join(5.0)
+        t.join(2.0)
         hang = t.is_alive()
     else:
         go(r)
@@ -173,6 +173,7 @@ def chunk(seed, idx, nbase, tier):
     rng = random.Random('C04/%d/%d' % (seed, idx))
     kn = knobs()
     ex = Exploration()
+    hung = False
     for _ in range(nbase):
         base = flat.gen_flat(rng, kn)
         clean = flat.FlatRun(base).run()
@@ -181,6 +182,8 @@ def chunk(seed, idx, nbase, tier):
             cont = [(flat.TRIGGER, rng.choice(d.models), rng.choice(evs)) for _ in range(3)]
             classes = ['Machine', rng.choice(SYNC_CLASSES[1:])] if tier == 'quick' else SYNC_CLASSES
             for clsname in classes:
+                if hung and clsname.startswith('Locked'):
+                    continue        # one leaked lock is enough: every further case would cost the hang timeout
                 case = {'desc': d.to_json(), 'cls': clsname, 'cont': cont, 'info': info}
                 fs, r = judge_case(case)
                 ex.evaluations += 1
@@ -196,6 +199,7 @@ def chunk(seed, idx, nbase, tier):
                     ex.samples.append({'class': clsname, 'crash': info, 'history': d.history,
                                        'trace': [common.show_item(i) for i in r.items[:40]]})
                 ex.failures += fs
+                hung = hung or any(f.what == 'survivor-hangs' for f in fs)
     return ex
 
 
@@ -242,7 +246,8 @@ class C04(runner.Check):
             if key in done:
                 continue
             done.add(key)
-            f.case = runner.shrink(f.case, self.fails_like(f.kind, f.what), shrink_steps, budget=150)
+            f.case = runner.shrink(f.case, self.fails_like(f.kind, f.what), shrink_steps,
+                                   budget=12 if f.what == 'survivor-hangs' else 150)
         return ex
 
     def fails_like(self, kind, what):
